@@ -1,5 +1,43 @@
-(** C17 — Maintenance deletes only cache entries and stale temporary files. (interim) *)
+(** C17 — Maintenance deletes only cache entries and stale temporary files.
+
+    Kernel-checked, for ARBITRARY environment responses: every unlink issued by
+    the maintenance step [definitely_cleanup] names a DIRECT entry that it has
+    itself just listed in the cache directory or in its temp directory (it lists
+    no other directory), and that entry is either (a) not dot-prefixed and was
+    shown by stat to be a non-directory, or (b) was shown by stat to be older
+    than the age limit relative to the clock reading taken before the scan.
+    The age limit, regenerated from the source, is one hour. *)
 From Coq Require Import List NArith ZArith String Bool.
-From Kismet Require Import Gen.Constants Gen.Agree Pure.Pinned Ops.Ops.
+From Kismet Require Import Gen.Constants Gen.Agree Pure.Pinned FS.Fs FS.Prog Spec.Wp Ops.Ops Proofs.MaintScope.
+Import ListNotations.
+
+Theorem C17_maintenance_scope : forall d base s,
+  wp (m_step [base; cd_temp d]) (definitely_cleanup d base) (fun _ s' => ext s s') s.
+Proof.
+  intros. apply definitely_cleanup_scope; cbn [existsb]; rewrite path_eqb_refl; rewrite ?orb_true_r; reflexivity.
+Qed.
+
+Theorem C17_maintenance_scope_on_every_run : forall d base w o,
+  let '(_, _, _, tr) := run (definitely_cleanup d base) w o in
+  exists s', mon_run (m_step [base; cd_temp d]) m_init tr = Some s'.
+Proof. exact definitely_cleanup_scope_run. Qed.
+
+(** Reading the monitor: an unlink is accepted only under this condition. *)
+Theorem C17_what_the_monitor_accepts : forall dirs s p r s',
+  m_step dirs s (EvCall (CUnlink p) r) = Some s' ->
+  exists d n, In (d, n) (m_listed s) /\ p = d ++ [n] /\
+    ((dot_prefixed n = false /\ In p (m_files s)) \/ In p (m_stale s)).
+Proof.
+  intros dirs s p r s' H. cbn [m_step] in H. destruct (unlink_ok s p) eqn:Hok; [|discriminate].
+  unfold unlink_ok in Hok. apply existsb_exists in Hok. destruct Hok as ([d n] & Hin & Hc).
+  apply andb_true_iff in Hc. destruct Hc as (Hp & Hc).
+  assert (Hpe : forall a b, path_eqb a b = true -> a = b) by (intros a b Hab; unfold path_eqb in Hab; destruct (path_eq_dec a b); congruence).
+  exists d, n. split; [exact Hin|]. split; [apply Hpe, Hp|].
+  apply orb_true_iff in Hc. destruct Hc as [Hc|Hc].
+  - left. apply andb_true_iff in Hc. destruct Hc as (Hd & Hf). split; [destruct (dot_prefixed n); [discriminate|reflexivity]|].
+    apply existsb_exists in Hf. destruct Hf as (x & Hx & He). apply Hpe in He. subst. exact Hx.
+  - right. apply existsb_exists in Hc. destruct Hc as (x & Hx & He). apply Hpe in He. subst. exact Hx.
+Qed.
+
 Theorem C17_age_limit_one_hour : MAX_AGE_NS = 3600000000000%Z.
 Proof. unfold MAX_AGE_NS. rewrite max_age_agrees. reflexivity. Qed.
